@@ -120,7 +120,7 @@ class FiltersSet:
             ":flags": "imap4flags",
             ":seconds": "vacation-seconds",
         }
-        if arg in args_using_extensions:
+        if isinstance(arg, str) and arg in args_using_extensions:
             self.require(args_using_extensions[arg])
 
     def __gen_require_command(self) -> Union[commands.Command, None]:
@@ -338,6 +338,7 @@ class FiltersSet:
                     atype = "number"
                 elif isinstance(arg, list):
                     atype = "stringlist"
+                    arg = [self.__quote_if_necessary(v) for v in arg]
                 elif arg.startswith(":"):
                     atype = "tag"
                 else:
